@@ -33,6 +33,10 @@ NSG int glue_is_yield_requeue(void* f) {
   fiber_manager_t* m = fiber_manager_get();
   return m && (void*)m->to_schedule == f;
 }
+NSG void* sim_old_fiber(void) {
+  fiber_manager_t* m = fiber_manager_get();
+  return m ? (void*)m->old_fiber : NULL;
+}
 NSG size_t glue_sizeof_fiber(void) { return sizeof(fiber_t); }
 /* overwrite the dead part of the current fiber's stack (below the caller's frame) */
 NSG __attribute__((noinline)) void sim_poison_stack_below(void) {
